@@ -163,19 +163,21 @@ theorem armStep_cases {a0 : Arm} (hk : HK) (x : FCfg) (h : ArmOk a0 x) :
       exact ⟨trivial, fun b' hb' => by cases hb'; exact ⟨hb1, hb2⟩, fun h => by cases h⟩
 
 /-- `y'` is `y` up to the call counter and the `fired` flag -/
-def UpTo (y y' : FCfg) : Prop := y'.l = y.l ∧ y'.arm = y.arm ∧ y'.rep = y.rep
+def UpTo (y y' : FCfg) : Prop := y'.l = y.l ∧ y'.arm = y.arm ∧ y'.rep = y.rep ∧ y'.inState = y.inState
 
 /-- case analysis of a hook call.  `x'` is the configuration handed to the base implementation: `x` with the armed fault advanced
-(and another value of the call counter). -/
+(and another value of the call counter); an exception leaves the configuration the base implementation reached, up to the call
+counter (which is put back). -/
 theorem hookF_cases {a0 : Arm} (hk : HK) (base : FCfg → Res) (x : FCfg) (h : ArmOk a0 x) :
     (a0.hk = hk ∧ a0.after = false ∧ x.fired = false ∧ x.arm ≠ none ∧
-      ∃ y, hookF hk base x = (y, some faultExc) ∧ y.l = x.l ∧ y.fired = true ∧ y.arm = none ∧ y.rep = x.rep) ∨
-    (∃ x', x'.l = x.l ∧ x'.fired = x.fired ∧ x'.rep = x.rep ∧ ArmOk a0 x' ∧ (x.arm = none → x'.arm = none) ∧
+      ∃ y, hookF hk base x = (y, some faultExc) ∧ y.l = x.l ∧ y.fired = true ∧ y.arm = none ∧ y.rep = x.rep ∧
+        y.inState = x.inState) ∨
+    (∃ x', x'.l = x.l ∧ x'.fired = x.fired ∧ x'.rep = x.rep ∧ ArmOk a0 x' ∧ ((x.arm = none → x'.arm = none) ∧ x'.inState = x.inState) ∧
       ((a0.hk = hk ∧ a0.after = true ∧ x.fired = false ∧ x.arm ≠ none ∧ x'.arm = none ∧
-          ((∃ y e, base x' = (y, some e) ∧ hookF hk base x = (y, some e)) ∨
+          ((∃ y y' e, base x' = (y, some e) ∧ hookF hk base x = (y', some e) ∧ UpTo y y' ∧ y'.fired = y.fired) ∨
            (∃ y y', base x' = (y, none) ∧ hookF hk base x = (y', some faultExc) ∧ y'.l = y.l ∧ y'.rep = y.rep ∧
-             y'.arm = none ∧ y'.fired = true))) ∨
-       ((∃ y e, base x' = (y, some e) ∧ hookF hk base x = (y, some e)) ∨
+             y'.arm = none ∧ y'.fired = true ∧ y'.inState = y.inState))) ∨
+       ((∃ y y' e, base x' = (y, some e) ∧ hookF hk base x = (y', some e) ∧ UpTo y y' ∧ y'.fired = y.fired) ∨
         (∃ y y' e, base x' = (y, none) ∧ hookF hk base x = (y', e) ∧ (e = none ∨ e = some .assertion) ∧ UpTo y y' ∧
           y'.fired = y.fired ∧ (y.called = x'.called → e = none ∧ y'.called = x.called))))) := by
   rcases armStep_cases hk x h with ⟨hp, h2, h3⟩ | ⟨hhk, hnf, hxa, harm, hv⟩
@@ -184,31 +186,31 @@ theorem hookF_cases {a0 : Arm} (hk : HK) (base : FCfg → Res) (x : FCfg) (h : A
     have hao : ∀ n, ArmOk a0 { x with called := n, arm := (armStep hk x.arm).2 } := fun n => ⟨h2, fun hf => h3 (h.2 hf)⟩
     by_cases hT : hk = .onTerminated
     · subst hT
-      refine ⟨{ x with called := x.called + 1 - 1, arm := (armStep .onTerminated x.arm).2 }, rfl, rfl, rfl, hao _, h3, Or.inr ?_⟩
+      refine ⟨{ x with called := x.called + 1 - 1, arm := (armStep .onTerminated x.arm).2 }, rfl, rfl, rfl, hao _, ⟨h3, rfl⟩, Or.inr ?_⟩
       unfold hookF supF
       simp only [hp, if_true]
       cases hb : base { x with called := x.called + 1 - 1, arm := (armStep HK.onTerminated x.arm).2 } with
       | mk y e =>
         cases e with
-        | some e => left; exact ⟨y, e, rfl, rfl⟩
+        | some e => left; exact ⟨y, { y with called := x.called }, e, rfl, rfl, ⟨rfl, rfl, rfl, rfl⟩, rfl⟩
         | none =>
           right
           by_cases hc : y.called = x.called
-          · exact ⟨y, y, none, rfl, by simp [hc], Or.inl rfl, ⟨rfl, rfl, rfl⟩, rfl, fun _ => ⟨rfl, hc⟩⟩
-          · exact ⟨y, y, some .assertion, rfl, by simp [hc], Or.inr rfl, ⟨rfl, rfl, rfl⟩, rfl,
+          · exact ⟨y, y, none, rfl, by simp [hc], Or.inl rfl, ⟨rfl, rfl, rfl, rfl⟩, rfl, fun _ => ⟨rfl, hc⟩⟩
+          · exact ⟨y, y, some .assertion, rfl, by simp [hc], Or.inr rfl, ⟨rfl, rfl, rfl, rfl⟩, rfl,
               fun h' => absurd (by simpa using h') hc⟩
-    · refine ⟨{ x with called := x.called + 1, arm := (armStep hk x.arm).2 }, rfl, rfl, rfl, hao _, h3, Or.inr ?_⟩
+    · refine ⟨{ x with called := x.called + 1, arm := (armStep hk x.arm).2 }, rfl, rfl, rfl, hao _, ⟨h3, rfl⟩, Or.inr ?_⟩
       unfold hookF supF
       simp only [hp, hT, if_false]
       cases hb : base { x with called := x.called + 1, arm := (armStep hk x.arm).2 } with
       | mk y e =>
         cases e with
-        | some e => left; exact ⟨y, e, rfl, rfl⟩
+        | some e => left; exact ⟨y, { y with called := x.called }, e, rfl, rfl, ⟨rfl, rfl, rfl, rfl⟩, rfl⟩
         | none =>
           right
           by_cases hc : y.called - 1 = x.called
-          · exact ⟨y, { y with called := y.called - 1 }, none, rfl, by simp [hc], Or.inl rfl, ⟨rfl, rfl, rfl⟩, rfl, fun _ => ⟨rfl, hc⟩⟩
-          · exact ⟨y, { y with called := y.called - 1 }, some .assertion, rfl, by simp [hc], Or.inr rfl, ⟨rfl, rfl, rfl⟩, rfl,
+          · exact ⟨y, { y with called := y.called - 1 }, none, rfl, by simp [hc], Or.inl rfl, ⟨rfl, rfl, rfl, rfl⟩, rfl, fun _ => ⟨rfl, hc⟩⟩
+          · exact ⟨y, { y with called := y.called - 1 }, some .assertion, rfl, by simp [hc], Or.inr rfl, ⟨rfl, rfl, rfl, rfl⟩, rfl,
               fun h' => absurd (by simp [h']) hc⟩
   · have hao : ∀ n, ArmOk a0 { x with called := n, arm := (armStep hk x.arm).2 } :=
       fun n => ⟨fun b hb => (by rw [show ({ x with called := n, arm := (armStep hk x.arm).2 } : FCfg).arm = none from harm] at hb; cases hb),
@@ -216,30 +218,30 @@ theorem hookF_cases {a0 : Arm} (hk : HK) (base : FCfg → Res) (x : FCfg) (h : A
     rcases hv with ⟨hb4, haf⟩ | ⟨ha4, haf⟩
     · -- before
       left
-      refine ⟨hhk, haf, hnf, hxa, { x with called := x.called + 1, arm := (armStep hk x.arm).2, fired := true }, ?_, rfl, rfl, harm, rfl⟩
+      refine ⟨hhk, haf, hnf, hxa, { x with called := x.called, arm := (armStep hk x.arm).2, fired := true }, ?_, rfl, rfl, harm, rfl, rfl⟩
       unfold hookF; simp only [hb4]
     · -- after
       right
       by_cases hT : hk = .onTerminated
       · subst hT
-        refine ⟨{ x with called := x.called + 1 - 1, arm := (armStep .onTerminated x.arm).2 }, rfl, rfl, rfl, hao _, fun _ => harm,
+        refine ⟨{ x with called := x.called + 1 - 1, arm := (armStep .onTerminated x.arm).2 }, rfl, rfl, rfl, hao _, ⟨fun _ => harm, rfl⟩,
           Or.inl ⟨hhk, haf, hnf, hxa, harm, ?_⟩⟩
         unfold hookF supF
         simp only [ha4, if_true]
         cases hb : base { x with called := x.called + 1 - 1, arm := (armStep HK.onTerminated x.arm).2 } with
         | mk y e =>
           cases e with
-          | some e => left; exact ⟨y, e, rfl, rfl⟩
-          | none => right; exact ⟨y, { y with arm := none, fired := true }, rfl, rfl, rfl, rfl, rfl, rfl⟩
-      · refine ⟨{ x with called := x.called + 1, arm := (armStep hk x.arm).2 }, rfl, rfl, rfl, hao _, fun _ => harm,
+          | some e => left; exact ⟨y, { y with called := x.called }, e, rfl, rfl, ⟨rfl, rfl, rfl, rfl⟩, rfl⟩
+          | none => right; exact ⟨y, { y with called := x.called, arm := none, fired := true }, rfl, rfl, rfl, rfl, rfl, rfl, rfl⟩
+      · refine ⟨{ x with called := x.called + 1, arm := (armStep hk x.arm).2 }, rfl, rfl, rfl, hao _, ⟨fun _ => harm, rfl⟩,
           Or.inl ⟨hhk, haf, hnf, hxa, harm, ?_⟩⟩
         unfold hookF supF
         simp only [ha4, hT, if_false]
         cases hb : base { x with called := x.called + 1, arm := (armStep hk x.arm).2 } with
         | mk y e =>
           cases e with
-          | some e => left; exact ⟨y, e, rfl, rfl⟩
-          | none => right; exact ⟨y, { y with called := y.called - 1, arm := none, fired := true }, rfl, rfl, rfl, rfl, rfl, rfl⟩
+          | some e => left; exact ⟨y, { y with called := x.called }, e, rfl, rfl, ⟨rfl, rfl, rfl, rfl⟩, rfl⟩
+          | none => right; exact ⟨y, { y with called := x.called, arm := none, fired := true }, rfl, rfl, rfl, rfl, rfl, rfl, rfl⟩
 
 end FP
 end PMF
